@@ -879,3 +879,7 @@ def check(run):
     run.rule('R2', r2_thresholds, 'limits are enforced exactly at their thresholds (normal forms)', floor=22)
     run.rule('R3', r3_only_parse_error, 'only MultipartParseError (a 400) escapes iteration and the part accessors', floor=23)
     run.rule('R4', r4_delimiter, 'delimiter evolution and the value given to delimit()', floor=2)
+    # the header-block limit is enforced through read_until(CRLF+CRLF, max_headers_size): it holds independently of the
+    # transport's chunking only if that size-capped read never hands out the first bytes of a delimiter (C14 R7)
+    from . import c14 as _c14
+    run.rule('R5', _c14.r7_delimiter_not_split, 'header-size-capped read never splits a delimiter (shared with C14)', floor=1)
